@@ -1,8 +1,14 @@
 package interp
 
 import (
+	"crypto/hmac"
+	"crypto/md5"
+	"crypto/sha1"
+	"crypto/sha256"
+	"encoding/binary"
 	"fmt"
 	"go/types"
+	"hash/crc32"
 	"os"
 	"strconv"
 	"strings"
@@ -566,6 +572,18 @@ func (p *Path) ufBytes(fr *frame, name string, n int, args []Value) Value {
 		}
 		flat = append(flat, a)
 	}
+	// concrete arguments: the real function (or, for unknown names, one fixed injective-looking interpretation)
+	if cb, ok := concreteUF(name, n, flat); ok {
+		vs := make([]Value, n)
+		outc := make([]*sym.Term, n)
+		for i := range cb {
+			outc[i] = sym.Byte(cb[i])
+			vs[i] = outc[i]
+		}
+		// remembered, so that later symbolic applications stay consistent with it
+		p.state["uf"] = append(apps, &ufApp{name: name, args: flat, out: outc})
+		return Slice{A: vs}
+	}
 	nm := p.freshName("uf$" + name)
 	out := make([]*sym.Term, n)
 	for i := range out {
@@ -613,6 +631,70 @@ func (p *Path) ufBytes(fr *frame, name string, n int, args []Value) Value {
 		vs[i] = out[i]
 	}
 	return Slice{A: vs}
+}
+
+func concreteBytes(v Value) ([]byte, bool) {
+	switch x := v.(type) {
+	case Slice:
+		b := make([]byte, len(x.A))
+		for i, c := range x.A {
+			t, ok := c.(*sym.Term)
+			if !ok || !t.IsConst() {
+				return nil, false
+			}
+			b[i] = byte(t.C)
+		}
+		return b, true
+	case string:
+		return []byte(x), true
+	}
+	return nil, false
+}
+
+func concreteUF(name string, n int, args []Value) ([]byte, bool) {
+	var bs [][]byte
+	for _, a := range args {
+		b, ok := concreteBytes(a)
+		if !ok {
+			return nil, false
+		}
+		bs = append(bs, b)
+	}
+	var out []byte
+	switch {
+	case name == "md5" && len(bs) == 1:
+		s := md5.Sum(bs[0])
+		out = s[:]
+	case name == "sha1" && len(bs) == 1:
+		s := sha1.Sum(bs[0])
+		out = s[:]
+	case name == "sha256" && len(bs) == 1:
+		s := sha256.Sum256(bs[0])
+		out = s[:]
+	case name == "hmac-sha256" && len(bs) == 2:
+		h := hmac.New(sha256.New, bs[0])
+		h.Write(bs[1])
+		out = h.Sum(nil)
+	case name == "crc32" && len(bs) == 1:
+		out = binary.BigEndian.AppendUint32(nil, crc32.ChecksumIEEE(bs[0]))
+	case name == "crc32c" && len(bs) == 1:
+		out = binary.BigEndian.AppendUint32(nil, crc32.Checksum(bs[0], crc32.MakeTable(crc32.Castagnoli)))
+	default:
+		h := sha256.New()
+		h.Write([]byte(name))
+		for _, b := range bs {
+			h.Write([]byte{0xff, byte(len(b))})
+			h.Write(b)
+		}
+		out = h.Sum(nil)
+		for len(out) < n {
+			out = append(out, out...)
+		}
+	}
+	if len(out) < n {
+		return nil, false
+	}
+	return out[:n], true
 }
 
 func (p *Path) ufInjective(name string) bool {
